@@ -47,6 +47,7 @@ type Anchors struct {
 	CloneFn     *ssa.Function // (*Bucket) -> *Bucket copying the shared fields
 	OpenFn      *ssa.Function // calls sql.Open
 	ShutdownFn  *ssa.Function // calls (*sql.DB).Close
+	WithMetaFn  *ssa.Function // common callee of SetWithMeta and DeleteWithMeta
 
 	Problems map[string]string
 }
@@ -458,7 +459,9 @@ func (m *Model) resolveAnchors() error {
 				}
 			}
 		})
-		a.MarkHelper = one("MarkHelper", marks)
+		if len(marks) == 1 { // optional: the mark statements may also sit in the closure itself
+			a.MarkHelper = marks[0]
+		}
 	}
 
 	// scan helper, pool accessors, expiry helpers, clone
@@ -519,6 +522,23 @@ func (m *Model) resolveAnchors() error {
 	}
 	if len(a.PoolFns) == 0 {
 		a.problem("PoolFns", "no function returns the queryable interface")
+	}
+	if a.CollectionType != nil {
+		s1 := m.lookupMethod(a.CollectionType.Obj().Name(), "SetWithMeta")
+		s2 := m.lookupMethod(a.CollectionType.Obj().Name(), "DeleteWithMeta")
+		if s1 != nil && s2 != nil {
+			c1 := map[*ssa.Function]bool{}
+			m.eachCall(s1, func(c ssa.CallInstruction) {
+				if f := c.Common().StaticCallee(); f != nil && m.inPkg(f) {
+					c1[f] = true
+				}
+			})
+			m.eachCall(s2, func(c ssa.CallInstruction) {
+				if f := c.Common().StaticCallee(); f != nil && c1[f] {
+					a.WithMetaFn = f
+				}
+			})
+		}
 	}
 	_ = pkgPath
 	return nil
